@@ -103,7 +103,9 @@ func (w *World) startProbe(kind string) {
 		pr.omit = w.C.Prob(1, 2)
 		pick := w.C.Choose(64)
 		omit := pr.omit
-		pr.task = w.S.Spawn("probe:c11:"+tag, w.proc, func() { c11Task(inst, tag, size, pick, omit) })
+		// "sorted by IP" has four spellings in the API: ascending (also the default and the bare field name) and descending
+		sortBy := pick2(w.C, []string{"ip asc", "ip desc", "ip", "", "IP DESC"})
+		pr.task = w.S.Spawn("probe:c11:"+tag, w.proc, func() { c11Task(inst, tag, size, pick, omit, sortBy) })
 	}
 	pr.task.Tag = "probe"
 	pr.task.Data = &taskMeta{start: w.S.Steps, confRead: -1}
@@ -446,10 +448,15 @@ type listResp struct {
 	Content       []map[string]interface{} `json:"content"`
 }
 
-func c11Task(inst *Instance, tag string, size, pick int, omitAppType bool) {
+func pick2(c *core.Choices, l []string) string { return l[c.Choose(len(l))] }
+
+func c11Task(inst *Instance, tag string, size, pick int, omitAppType bool, sortBy string) {
 	var all []map[string]interface{}
 	for page := 0; page < 200; page++ {
-		u := fmt.Sprintf("/v1/ip?size=%d&page=%d&sort=%s", size, page, url.QueryEscape("ip asc"))
+		u := fmt.Sprintf("/v1/ip?size=%d&page=%d", size, page)
+		if sortBy != "" {
+			u += "&sort=" + url.QueryEscape(sortBy)
+		}
 		code, body := doHTTP(inst, "GET", u, nil)
 		report("w.probe.page", httpReport{Tag: tag, Method: "GET", URL: u, Code: code, Body: body})
 		var lr listResp
